@@ -52,6 +52,9 @@ func runC14(c *fw.Case) {
 	if r.Intn(4) == 0 {
 		universe[0] = []byte{} // the empty key is a legal key
 	}
+	for i, k := range universe {
+		universe[i] = append(make([]byte, 0, len(k)), k...) // own allocation, no spare capacity, no neighbours
+	}
 	steps := 1 + r.Intn(200)
 	everBytes := uint64(0)
 	sawDelPresent, sawReadd, flushed := false, false, false
@@ -377,6 +380,15 @@ func c14CheckIter(c *fw.Case, it sstables.SSTableIteratorI, model map[string]*c1
 			break
 		}
 		keptK, keptV = append(keptK, k), append(keptV, v)
+		// a consumer may append to a key it was handed: whatever capacity the slice has beyond its length is the
+		// consumer's to use — it must not be the memory the store keeps a value in
+		if cap(k) > len(k) {
+			spare := k[len(k):cap(k)]
+			for j := range spare {
+				spare[j] = 0xEE
+			}
+			c.Obs("iterator_keys_with_spare_capacity_written_to", 1)
+		}
 		if i >= len(keys) {
 			c.Violate("memstore/"+name+"/iter-extra", "%s: extra entry %x", name, k)
 			return
